@@ -5,81 +5,81 @@
    Generated constants (Gen/Consts.v) stay symbolic in the statements. *)
 From Coq Require Import List NArith ZArith Bool Lia ZifyBool ZifyN ZifyNat.
 From YV Require Import Gen.Consts Lib.Bytes Codec.Varint Codec.AnyCodec Codec.IdSetCodec Codec.UpdateV1
-  Codec.Messages Ids.Ranges Codec.VarintProofs Codec.AnyProofs.
+  Codec.Messages Ids.Ranges Ids.RangesProofs Codec.VarintProofs Codec.AnyProofs.
 Import ListNotations.
 Open Scope N_scope.
 Ltac Zify.zify_post_hook ::= Z.div_mod_to_equations.
 
 (* ------------------------------------------------------------------------------------------------ *)
-(* result predicate: Ok leaves fewer than [n] bytes, panics only at sites in [P], never Fuel          *)
+(* result predicate: Ok leaves fewer than [n] bytes, never Panic, never Fuel                         *)
 (* ------------------------------------------------------------------------------------------------ *)
 
-Definition bnd {A} (P : N -> Prop) (n : nat) (r : res A) : Prop :=
+Definition bnd {A} (n : nat) (r : res A) : Prop :=
   match r with
   | Ok _ rest => (length rest < n)%nat
   | Err _ => True
-  | Panic s => P s
+  | Panic _ => False
   | Fuel => False
   end.
 
-Lemma bnd_bind : forall A B (P : N -> Prop) n m (r : res A) (f : A -> list N -> res B),
-  bnd P n r -> (forall a rest, (length rest < n)%nat -> bnd P m (f a rest)) -> bnd P m (bind r f).
-Proof. intros A B P n m r f Hr Hf. destruct r; cbn [bind bnd] in *; auto. Qed.
+Lemma bnd_bind : forall A B n m (r : res A) (f : A -> list N -> res B),
+  bnd n r -> (forall a rest, (length rest < n)%nat -> bnd m (f a rest)) -> bnd m (bind r f).
+Proof. intros A B n m r f Hr Hf. destruct r; cbn [bind bnd] in *; auto. Qed.
 
-Lemma bnd_rmap : forall A B (P : N -> Prop) n (g : A -> B) (r : res A), bnd P n r -> bnd P n (rmap g r).
-Proof. intros A B P n g r H. destruct r; cbn in *; auto. Qed.
+Lemma bnd_rmap : forall A B n (g : A -> B) (r : res A), bnd n r -> bnd n (rmap g r).
+Proof. intros A B n g r H. destruct r; cbn in *; auto. Qed.
 
-Lemma bnd_mono : forall A (P Q : N -> Prop) n m (r : res A),
-  (n <= m)%nat -> (forall s, P s -> Q s) -> bnd P n r -> bnd Q m r.
-Proof. intros A P Q n m r Hn HPQ H. destruct r; cbn in *; auto. lia. Qed.
+Lemma bnd_le : forall A n m (r : res A), (n <= m)%nat -> bnd n r -> bnd m r.
+Proof. intros A n m r Hn H. destruct r; cbn in *; auto. lia. Qed.
 
-Lemma bnd_le : forall A (P : N -> Prop) n m (r : res A), (n <= m)%nat -> bnd P n r -> bnd P m r.
-Proof. intros A P n m r Hn H. eapply bnd_mono; [exact Hn| |exact H]. auto. Qed.
-
-Lemma bnd_of_total : forall A (P : N -> Prop) n (r : res A),
+Lemma bnd_of_total : forall A n (r : res A),
   match r with Panic _ | Fuel => False | _ => True end ->
-  (forall a rest, r = Ok a rest -> (length rest < n)%nat) -> bnd P n r.
-Proof. intros A P n r Ht Hs. destruct r; cbn in *; try contradiction; auto. eapply Hs; reflexivity. Qed.
+  (forall a rest, r = Ok a rest -> (length rest < n)%nat) -> bnd n r.
+Proof. intros A n r Ht Hs. destruct r; cbn in *; try contradiction; auto. eapply Hs; reflexivity. Qed.
 
-Lemma bnd_read_var_u32 : forall P bs, bnd P (length bs) (read_var_u32 bs).
-Proof. intros P bs. apply bnd_of_total; [apply read_var_u32_total|apply read_var_u32_shrinks]. Qed.
+Lemma bind_ok : forall A B (r : res A) (f : A -> list N -> res B) b rest,
+  bind r f = Ok b rest -> exists a r1, r = Ok a r1 /\ f a r1 = Ok b rest.
+Proof. intros A B r f b rest H. destruct r as [a r1| | |]; cbn [bind] in H; try discriminate. eauto. Qed.
 
-Lemma bnd_read_var_u64 : forall P bs, bnd P (length bs) (read_var_u64 bs).
-Proof. intros P bs. apply bnd_of_total; [apply read_var_u64_total|apply read_var_u64_shrinks]. Qed.
+Lemma bnd_read_var_u32 : forall bs, bnd (length bs) (read_var_u32 bs).
+Proof. intros bs. apply bnd_of_total; [apply read_var_u32_total|apply read_var_u32_shrinks]. Qed.
 
-Lemma bnd_read_buf : forall P bs, bnd P (length bs) (read_buf bs).
-Proof. intros P bs. apply bnd_of_total; [apply read_buf_total|apply read_buf_shrinks]. Qed.
+Lemma bnd_read_var_u64 : forall bs, bnd (length bs) (read_var_u64 bs).
+Proof. intros bs. apply bnd_of_total; [apply read_var_u64_total|apply read_var_u64_shrinks]. Qed.
 
-Lemma bnd_read_string : forall P bs, bnd P (length bs) (read_string bs).
-Proof. exact bnd_read_buf. Qed.
+Lemma bnd_read_buf : forall bs, bnd (length bs) (read_buf bs).
+Proof. intros bs. apply bnd_of_total; [apply read_buf_total|apply read_buf_shrinks]. Qed.
 
-Lemma bnd_read_var_u8 : forall P bs, bnd P (length bs) (read_var_u8 bs).
+Lemma bnd_read_string : forall bs, bnd (length bs) (read_string bs).
+Proof. intros bs. apply bnd_of_total; [apply read_string_total|apply read_string_shrinks]. Qed.
+
+Lemma bnd_read_var_u8 : forall bs, bnd (length bs) (read_var_u8 bs).
 Proof.
-  intros P bs. unfold read_var_u8. eapply bnd_bind; [apply bnd_read_var_u32|].
+  intros bs. unfold read_var_u8. eapply bnd_bind; [apply bnd_read_var_u32|].
   intros v rest Hl. destruct (v <? 256); cbn [bnd]; auto.
 Qed.
 
-Lemma bnd_read_u8 : forall P bs, bnd P (length bs) (read_u8 bs).
-Proof. intros P [|b bs]; cbn; auto. Qed.
+Lemma bnd_read_u8 : forall bs, bnd (length bs) (read_u8 bs).
+Proof. intros [|b bs]; cbn; auto. Qed.
 
-Lemma bnd_read_exact : forall P n bs, bnd P (S (length bs)) (read_exact n bs).
+Lemma bnd_read_exact : forall n bs, bnd (S (length bs)) (read_exact n bs).
 Proof.
-  intros P n bs. apply bnd_of_total; [apply read_exact_total|].
+  intros n bs. apply bnd_of_total; [apply read_exact_total|].
   intros a rest H. apply read_exact_shrinks in H. lia.
 Qed.
 
-Lemma bnd_read_var_i64 : forall (P : N -> Prop) bs, P P_SHL_I64 -> P P_NEG_I64 ->
-  bnd P (length bs) (read_var_i64 bs).
-Proof.
-  intros P bs H1 H2. pose proof (read_var_i64_panics bs) as Hp. pose proof (read_var_i64_shrinks bs) as Hs.
-  destruct (read_var_i64 bs); cbn; auto.
-  - eapply Hs; reflexivity.
-  - destruct Hp as [->| ->]; assumption.
-Qed.
+Lemma bnd_read_var_i64 : forall bs, bnd (length bs) (read_var_i64 bs).
+Proof. intros bs. apply bnd_of_total; [apply read_var_i64_total|apply read_var_i64_shrinks]. Qed.
 
-Lemma bnd_client_id_new : forall (P : N -> Prop) v rest, P P_CLIENT_ID ->
-  bnd P (S (length rest)) (client_id_new v rest).
-Proof. intros P v rest HP. unfold client_id_new. destruct (v <? two53); cbn; auto. Qed.
+(* ClientID::try_new: an id >= 2^53 is an error, not a panic *)
+Lemma bnd_client_id_new : forall v rest, bnd (S (length rest)) (client_id_new v rest).
+Proof. intros v rest. unfold client_id_new. destruct (v <? two53); cbn; auto. Qed.
+
+Lemma client_id_new_ok : forall v rest c r, client_id_new v rest = Ok c r -> c = v /\ r = rest /\ v < two53.
+Proof.
+  intros v rest c r H. unfold client_id_new in H. destruct (N.ltb_spec v two53); [|discriminate].
+  inversion H; subst. auto.
+Qed.
 
 (* ------------------------------------------------------------------------------------------------ *)
 (* unfolding equations of the fuelled loops                                                         *)
@@ -103,9 +103,9 @@ Lemma decode_idset_loop_eq : forall fuel n bs acc,
   | O => Fuel
   | S f =>
     let* (client, r1) := read_var_u64 bs in
-    let* (range, r2) := decode_idrange_v1 f r1 in
-    let* (c, r3) := client_id_new client r2 in
-    decode_idset_loop f (n - 1) r3 (im_set acc c range)
+    let* (c, r1') := client_id_new client r1 in
+    let* (range, r3) := decode_idrange_v1 f r1' in
+    decode_idset_loop f (n - 1) r3 (match range with [] => acc | _ => im_set acc c range end)
   end.
 Proof. destruct fuel; reflexivity. Qed.
 
@@ -116,8 +116,8 @@ Lemma decode_sv_loop_eq : forall fuel n bs acc,
   | O => Fuel
   | S f =>
     let* (client, r1) := read_var_u64 bs in
-    let* (clock, r2) := read_var_u32 r1 in
-    let* (c, r3) := client_id_new client r2 in
+    let* (c, r1') := client_id_new client r1 in
+    let* (clock, r3) := read_var_u32 r1' in
     decode_sv_loop f (n - 1) r3 (sv_set acc c clock)
   end.
 Proof. destruct fuel; reflexivity. Qed.
@@ -145,17 +145,22 @@ Proof. intro k. lia. Qed.
 (* A1. IdRange / IdSet round trip                                                                   *)
 (* ------------------------------------------------------------------------------------------------ *)
 
+(* the decoder normalises: only canonical lists (every range non-empty and strictly after the previous end)
+   come back unchanged *)
 Definition wf_entry (x : entry unit) : bool := (e_start x <=? e_end x) && (e_end x <? two32).
-Definition wf_idrange (r : idrange) : bool := (N.of_nat (length r) <? two32) && forallb wf_entry r.
+Definition wf_idrange (r : idrange) : bool :=
+  (N.of_nat (length r) <? two32) && forallb wf_entry r && ranges_canonical None r.
 
 (* strictly ascending, every element above [lo] *)
 Fixpoint asc_above (lo : N) (l : list N) : bool :=
   match l with [] => true | x :: r => (lo <? x) && asc_above x r end.
 Definition ascb (l : list N) : bool := match l with [] => true | x :: r => asc_above x r end.
 
+(* the decoder drops clients whose range list is empty *)
+Definition nonempty {A} (l : list A) : bool := match l with [] => false | _ => true end.
 Definition wf_idset (s : idset) : bool :=
   (N.of_nat (length s) <? two32) &&
-  forallb (fun cr => (fst cr <? two53) && wf_idrange (snd cr)) s &&
+  forallb (fun cr => (fst cr <? two53) && wf_idrange (snd cr) && nonempty (snd cr)) s &&
   ascb (map fst s).
 
 Definition idset_fuel (s : idset) : nat :=
@@ -190,11 +195,13 @@ Theorem idrange_roundtrip : forall r fuel rest,
   wf_idrange r = true -> (length r <= fuel)%nat ->
   decode_idrange_v1 fuel (encode_idrange_v1 r ++ rest) = Ok r rest.
 Proof.
-  intros r fuel rest Hwf Hf. unfold wf_idrange in Hwf. apply andb_prop in Hwf. destruct Hwf as [Hl Hr].
+  intros r fuel rest Hwf Hf. unfold wf_idrange in Hwf. apply andb_prop in Hwf. destruct Hwf as [Hwf Hcan].
+  apply andb_prop in Hwf. destruct Hwf as [Hl Hr].
   unfold decode_idrange_v1, encode_idrange_v1. rewrite <- app_assoc.
   rewrite var_u32_roundtrip by lia. cbn [bind].
   change (fun x : N * N * unit => write_var_u32 (e_start x) ++ write_var_u32 (e_end x - e_start x)) with enc_entry.
-  rewrite ranges_loop_roundtrip by assumption. reflexivity.
+  rewrite ranges_loop_roundtrip by assumption. cbn [bind rev app].
+  unfold normalize_ranges. rewrite Hcan. reflexivity.
 Qed.
 Print Assumptions idrange_roundtrip.
 
@@ -219,7 +226,7 @@ Definition enc_client_range (cr : N * idrange) : list N := write_var_u64 (fst cr
 Lemma idset_loop_roundtrip : forall s fuel M acc rest,
   (length s + M <= fuel)%nat ->
   (forall cr, In cr s -> (length (snd cr) <= M)%nat) ->
-  forallb (fun cr => (fst cr <? two53) && wf_idrange (snd cr)) s = true ->
+  forallb (fun cr => (fst cr <? two53) && wf_idrange (snd cr) && nonempty (snd cr)) s = true ->
   ascb (map fst s) = true ->
   (forall c' x, In c' (map fst acc) -> In x (map fst s) -> c' < x) ->
   decode_idset_loop fuel (N.of_nat (length s)) (flat_map enc_client_range s ++ rest) acc = Ok (acc ++ s) rest.
@@ -228,12 +235,13 @@ Proof.
   - cbn [length flat_map app]. change (N.of_nat 0 =? 0) with true. cbv iota. rewrite app_nil_r. reflexivity.
   - cbn [length] in *. rewrite of_nat_S_eqb0, of_nat_S_pred. destruct fuel as [|f]; [lia|].
     cbn [forallb fst snd] in Hwf. apply andb_prop in Hwf. destruct Hwf as [Hx Hs].
-    apply andb_prop in Hx. destruct Hx as [Hc Hr].
+    apply andb_prop in Hx. destruct Hx as [Hx Hne]. apply andb_prop in Hx. destruct Hx as [Hc Hr].
     cbn [flat_map]. unfold enc_client_range at 1. cbn [fst snd]. rewrite <- !app_assoc.
     rewrite var_u64_roundtrip by (unfold two53, two64 in *; lia). cbn [bind].
+    unfold client_id_new. rewrite Hc. cbn [bind].
     assert (HrM : (length r <= M)%nat) by (apply (HM (c, r)); left; reflexivity).
     rewrite idrange_roundtrip by (try assumption; lia). cbn [bind].
-    unfold client_id_new. rewrite Hc. cbn [bind].
+    destruct r as [|x0 r0]; [discriminate Hne|]. cbv iota.
     cbn [map fst ascb] in Hasc.
     rewrite im_set_append.
     2:{ intros c' Hin. apply Hacc; [exact Hin|]. left. reflexivity. }
@@ -311,8 +319,8 @@ Proof.
     apply andb_prop in Hx. destruct Hx as [Hc Hk].
     cbn [flat_map]. unfold enc_sv_entry at 1. cbn [fst snd]. rewrite <- !app_assoc.
     rewrite var_u64_roundtrip by (unfold two53, two64 in *; lia). cbn [bind].
-    rewrite var_u32_roundtrip by lia. cbn [bind].
     unfold client_id_new. rewrite Hc. cbn [bind].
+    rewrite var_u32_roundtrip by lia. cbn [bind].
     cbn [map fst nodupb] in Hnd. apply andb_prop in Hnd. destruct Hnd as [Hnin Hnd].
     apply negb_true_iff in Hnin.
     rewrite sv_set_append.
@@ -353,162 +361,498 @@ Qed.
 Print Assumptions snapshot_roundtrip.
 
 (* ------------------------------------------------------------------------------------------------ *)
-(* B7 / B8. totality of the IdSet / StateVector / Snapshot decoders                                  *)
+(* normalisation of decoded range lists: never fails, result canonical, same set of clocks           *)
 (* ------------------------------------------------------------------------------------------------ *)
 
-Definition ps_idset (s : N) : Prop := s = P_ADD_U32 \/ s = P_CLIENT_ID.
-Definition ps_sv (s : N) : Prop := s = P_CLIENT_ID.
+(* ranges_canonical (the decoder's test) and canon (Ids/RangesProofs.v) agree *)
+Lemma ranges_canonical_canon : forall l pe, ranges_canonical pe l = true ->
+  canon l /\ match pe with Some p => lb_ok p l | None => True end.
+Proof.
+  induction l as [|x r IH]; intros pe H; cbn [ranges_canonical] in H.
+  - split; [exact I|]. destruct pe; exact I.
+  - apply andb_prop in H. destruct H as [H H3]. apply andb_prop in H. destruct H as [H1 H2].
+    apply IH in H3. destruct H3 as [Hc Hl]. split.
+    + cbn [canon]. split; [lia|]. split; assumption.
+    + destruct pe; cbn [lb_ok]; [lia|exact I].
+Qed.
 
-Section TotalIdSet.
-  Variable P : N -> Prop.
-  Hypothesis Padd : P P_ADD_U32.
+Lemma canon_ranges_canonical : forall l pe, canon l ->
+  match pe with Some p => lb_ok p l | None => True end -> ranges_canonical pe l = true.
+Proof.
+  induction l as [|x r IH]; intros pe Hc Hl; [reflexivity|].
+  cbn [canon] in Hc. destruct Hc as (H1 & H2 & H3). cbn [ranges_canonical].
+  rewrite (IH (Some (e_end x)) H3 H2), andb_true_r. apply andb_true_intro. split; [lia|].
+  destruct pe; [cbn [lb_ok] in Hl; lia|reflexivity].
+Qed.
 
-  Lemma bnd_decode_range : forall bs, bnd P (length bs) (decode_range_v1 bs).
-  Proof.
-    intro bs. unfold decode_range_v1. eapply bnd_bind; [apply bnd_read_var_u32|]. intros clock r1 H1.
-    eapply bnd_bind; [apply bnd_read_var_u32|]. intros len r2 H2.
-    destruct (add32_checked clock len); cbn [bnd]; [lia|exact Padd].
-  Qed.
+Theorem ranges_canonical_iff : forall l, ranges_canonical None l = true <-> canon l.
+Proof.
+  intro l. split; intro H; [apply (ranges_canonical_canon l None H)|apply canon_ranges_canonical; [exact H|exact I]].
+Qed.
 
-  Lemma bnd_ranges_loop : forall fuel n bs acc, (length bs < fuel)%nat ->
-    bnd P (S (length bs)) (decode_ranges_loop fuel n bs acc).
-  Proof.
-    induction fuel as [|f IH]; intros n bs acc Hl; [lia|]. rewrite decode_ranges_loop_eq.
-    destruct (n =? 0); [cbn; lia|].
-    eapply bnd_bind; [apply bnd_decode_range|]. intros r rest Hr.
-    eapply bnd_le; [|apply IH]; lia.
-  Qed.
+Ltac den_lia := repeat match goal with |- context [den ?l ?k] => destruct (den l k) end; lia.
 
-  Lemma bnd_decode_idrange : forall fuel bs, (length bs < fuel)%nat ->
-    bnd P (length bs) (decode_idrange_v1 fuel bs).
-  Proof.
-    intros fuel bs Hl. unfold decode_idrange_v1. eapply bnd_bind; [apply bnd_read_var_u32|].
-    intros len rest Hr. eapply bnd_le; [|apply bnd_ranges_loop]; lia.
-  Qed.
+Definition norm_step (acc : option idrange) (x : entry unit) : option idrange :=
+  match acc with Some a => insert_with ueq umerge a (e_start x) (e_end x) tt | None => None end.
 
-  Hypothesis Pcid : P P_CLIENT_ID.
+Lemma normalize_ranges_eq : forall l, normalize_ranges l =
+  if ranges_canonical None l then Some l else fold_left norm_step (sort_by_start l) (Some []).
+Proof. reflexivity. Qed.
 
-  Lemma bnd_idset_loop : forall fuel n bs acc, (length bs < fuel)%nat ->
-    bnd P (S (length bs)) (decode_idset_loop fuel n bs acc).
-  Proof.
-    induction fuel as [|f IH]; intros n bs acc Hl; [lia|]. rewrite decode_idset_loop_eq.
-    destruct (n =? 0); [cbn; lia|].
-    eapply bnd_bind; [apply bnd_read_var_u64|]. intros client r1 H1.
-    eapply bnd_bind; [apply bnd_decode_idrange; lia|]. intros range r2 H2.
-    eapply bnd_bind; [apply bnd_client_id_new; exact Pcid|]. intros c r3 H3.
-    eapply bnd_le; [|apply IH]; lia.
-  Qed.
+Lemma insert_with_empty : forall (l : idrange) s e, e <= s -> insert_with ueq umerge l s e tt = Some l.
+Proof. intros l s e H. unfold insert_with. replace (e <=? s) with true by lia. reflexivity. Qed.
 
-  Lemma bnd_decode_idset : forall fuel bs, (length bs < fuel)%nat ->
-    bnd P (length bs) (decode_idset_v1 fuel bs).
-  Proof.
-    intros fuel bs Hl. unfold decode_idset_v1. eapply bnd_bind; [apply bnd_read_var_u32|].
-    intros n rest Hr. eapply bnd_le; [|apply bnd_idset_loop]; lia.
-  Qed.
-End TotalIdSet.
+(* the rebuild never hits the index panic of insert: the accumulator stays canonical *)
+Lemma norm_fold_spec : forall l acc, canon acc ->
+  exists r, fold_left norm_step l (Some acc) = Some r /\ canon r /\ forall k, den r k = den acc k || den l k.
+Proof.
+  induction l as [|x l IH]; intros acc Hc.
+  - exists acc. split; [reflexivity|]. split; [exact Hc|]. intro k. rewrite den_nil, orb_false_r. reflexivity.
+  - cbn [fold_left norm_step]. destruct (N.leb_spec (e_end x) (e_start x)) as [He|He].
+    + rewrite insert_with_empty by exact He. destruct (IH acc Hc) as (r & H1 & H2 & H3).
+      exists r. split; [exact H1|]. split; [exact H2|]. intro k. rewrite H3, den_cons. den_lia.
+    + destruct (insert_with_spec acc (e_start x) (e_end x) Hc He) as (acc' & Hi & Hc' & Hd). rewrite Hi.
+      destruct (IH acc' Hc') as (r & H1 & H2 & H3).
+      exists r. split; [exact H1|]. split; [exact H2|]. intro k. rewrite H3, Hd, den_cons. den_lia.
+Qed.
 
-Section TotalSv.
-  Variable P : N -> Prop.
-  Hypothesis Pcid : P P_CLIENT_ID.
+Lemma den_insert_by_start : forall x l k, den (insert_by_start x l) k = den (x :: l) k.
+Proof.
+  intros x l k. induction l as [|y l IH]; cbn [insert_by_start]; [reflexivity|].
+  destruct (e_start x <? e_start y); [reflexivity|]. rewrite (den_cons y), IH, !den_cons. den_lia.
+Qed.
 
-  Lemma bnd_sv_loop : forall fuel n bs acc, (length bs < fuel)%nat ->
-    bnd P (S (length bs)) (decode_sv_loop fuel n bs acc).
-  Proof.
-    induction fuel as [|f IH]; intros n bs acc Hl; [lia|]. rewrite decode_sv_loop_eq.
-    destruct (n =? 0); [cbn; lia|].
-    eapply bnd_bind; [apply bnd_read_var_u64|]. intros client r1 H1.
-    eapply bnd_bind; [apply bnd_read_var_u32|]. intros clock r2 H2.
-    eapply bnd_bind; [apply bnd_client_id_new; exact Pcid|]. intros c r3 H3.
-    eapply bnd_le; [|apply IH]; lia.
-  Qed.
+Lemma den_sort_fold : forall l acc k,
+  den (fold_left (fun acc x => insert_by_start x acc) l acc) k = den acc k || den l k.
+Proof.
+  induction l as [|x l IH]; intros acc k; cbn [fold_left].
+  - rewrite den_nil, orb_false_r. reflexivity.
+  - rewrite IH, den_insert_by_start, !den_cons. den_lia.
+Qed.
 
-  Lemma bnd_decode_sv : forall fuel bs, (length bs < fuel)%nat ->
-    bnd P (length bs) (decode_sv_v1 fuel bs).
-  Proof.
-    intros fuel bs Hl. unfold decode_sv_v1. eapply bnd_bind; [apply bnd_read_var_u32|].
-    intros n rest Hr. eapply bnd_le; [|apply bnd_sv_loop]; lia.
-  Qed.
+Lemma den_sort_by_start : forall l k, den (sort_by_start l) k = den l k.
+Proof. intros l k. unfold sort_by_start. rewrite den_sort_fold, den_nil. reflexivity. Qed.
 
-  Lemma bnd_read_id : forall bs, bnd P (length bs) (read_id_v1 bs).
-  Proof.
-    intro bs. unfold read_id_v1. eapply bnd_bind; [apply bnd_read_var_u64|]. intros c r1 H1.
-    eapply bnd_bind; [apply bnd_read_var_u32|]. intros k r2 H2.
-    eapply bnd_bind; [apply bnd_client_id_new; exact Pcid|]. intros c' r3 H3. cbn [bnd]. lia.
-  Qed.
-End TotalSv.
+Theorem normalize_ranges_spec : forall l,
+  exists r, normalize_ranges l = Some r /\ canon r /\ forall k, den r k = den l k.
+Proof.
+  intro l. rewrite normalize_ranges_eq. destruct (ranges_canonical None l) eqn:E.
+  - exists l. split; [reflexivity|]. split; [apply ranges_canonical_iff; exact E|reflexivity].
+  - destruct (norm_fold_spec (sort_by_start l) [] I) as (r & H1 & H2 & H3).
+    exists r. split; [exact H1|]. split; [exact H2|]. intro k. rewrite H3, den_nil, den_sort_by_start. reflexivity.
+Qed.
+Print Assumptions normalize_ranges_spec.
+
+(* a canonical list is a fixed point *)
+Theorem normalize_ranges_canon : forall l, canon l -> normalize_ranges l = Some l.
+Proof. intros l H. rewrite normalize_ranges_eq. apply ranges_canonical_iff in H. rewrite H. reflexivity. Qed.
+
+(* ------------------------------------------------------------------------------------------------ *)
+(* B7 / B8. totality of the IdSet / StateVector / Snapshot decoders: no panic at all                 *)
+(* ------------------------------------------------------------------------------------------------ *)
+
+Lemma bnd_decode_range : forall bs, bnd (length bs) (decode_range_v1 bs).
+Proof.
+  intro bs. unfold decode_range_v1. eapply bnd_bind; [apply bnd_read_var_u32|]. intros clock r1 H1.
+  eapply bnd_bind; [apply bnd_read_var_u32|]. intros len r2 H2.
+  destruct (add32_checked clock len); cbn [bnd]; [lia|exact I].
+Qed.
+
+Lemma bnd_ranges_loop : forall fuel n bs acc, (length bs < fuel)%nat ->
+  bnd (S (length bs)) (decode_ranges_loop fuel n bs acc).
+Proof.
+  induction fuel as [|f IH]; intros n bs acc Hl; [lia|]. rewrite decode_ranges_loop_eq.
+  destruct (n =? 0); [cbn; lia|].
+  eapply bnd_bind; [apply bnd_decode_range|]. intros r rest Hr.
+  eapply bnd_le; [|apply IH]; lia.
+Qed.
+
+Lemma bnd_decode_idrange : forall fuel bs, (length bs < fuel)%nat ->
+  bnd (length bs) (decode_idrange_v1 fuel bs).
+Proof.
+  intros fuel bs Hl. unfold decode_idrange_v1. eapply bnd_bind; [apply bnd_read_var_u32|].
+  intros len rest Hr. eapply (bnd_bind _ _ (length bs)); [eapply bnd_le; [|apply bnd_ranges_loop]; lia|].
+  intros raw rest' Hr'. destruct (normalize_ranges_spec raw) as (r & -> & _). exact Hr'.
+Qed.
+
+Lemma bnd_idset_loop : forall fuel n bs acc, (length bs < fuel)%nat ->
+  bnd (S (length bs)) (decode_idset_loop fuel n bs acc).
+Proof.
+  induction fuel as [|f IH]; intros n bs acc Hl; [lia|]. rewrite decode_idset_loop_eq.
+  destruct (n =? 0); [cbn; lia|].
+  eapply bnd_bind; [apply bnd_read_var_u64|]. intros client r1 H1.
+  eapply bnd_bind; [apply bnd_client_id_new|]. intros c r1' H1'.
+  eapply bnd_bind; [apply bnd_decode_idrange; lia|]. intros range r3 H3.
+  eapply bnd_le; [|apply IH]; lia.
+Qed.
+
+Lemma bnd_decode_idset : forall fuel bs, (length bs < fuel)%nat ->
+  bnd (length bs) (decode_idset_v1 fuel bs).
+Proof.
+  intros fuel bs Hl. unfold decode_idset_v1. eapply bnd_bind; [apply bnd_read_var_u32|].
+  intros n rest Hr. eapply bnd_le; [|apply bnd_idset_loop]; lia.
+Qed.
+
+Lemma bnd_sv_loop : forall fuel n bs acc, (length bs < fuel)%nat ->
+  bnd (S (length bs)) (decode_sv_loop fuel n bs acc).
+Proof.
+  induction fuel as [|f IH]; intros n bs acc Hl; [lia|]. rewrite decode_sv_loop_eq.
+  destruct (n =? 0); [cbn; lia|].
+  eapply bnd_bind; [apply bnd_read_var_u64|]. intros client r1 H1.
+  eapply bnd_bind; [apply bnd_client_id_new|]. intros c r1' H1'.
+  eapply bnd_bind; [apply bnd_read_var_u32|]. intros clock r3 H3.
+  eapply bnd_le; [|apply IH]; lia.
+Qed.
+
+Lemma bnd_decode_sv : forall fuel bs, (length bs < fuel)%nat ->
+  bnd (length bs) (decode_sv_v1 fuel bs).
+Proof.
+  intros fuel bs Hl. unfold decode_sv_v1. eapply bnd_bind; [apply bnd_read_var_u32|].
+  intros n rest Hr. eapply bnd_le; [|apply bnd_sv_loop]; lia.
+Qed.
+
+Lemma bnd_read_id : forall bs, bnd (length bs) (read_id_v1 bs).
+Proof.
+  intro bs. unfold read_id_v1. eapply bnd_bind; [apply bnd_read_var_u64|]. intros c r1 H1.
+  eapply bnd_bind; [apply bnd_read_var_u32|]. intros k r2 H2.
+  eapply bnd_bind; [apply bnd_client_id_new|]. intros c' r3 H3. cbn [bnd]. lia.
+Qed.
+
+Theorem decode_idrange_total : forall fuel bs, (length bs < fuel)%nat ->
+  match decode_idrange_v1 fuel bs with
+  | Ok _ rest => (length rest < length bs)%nat
+  | Err _ => True
+  | Panic _ => False
+  | Fuel => False
+  end.
+Proof. exact bnd_decode_idrange. Qed.
+Print Assumptions decode_idrange_total.
 
 Theorem decode_idset_total : forall fuel bs, (length bs < fuel)%nat ->
   match decode_idset_v1 fuel bs with
   | Ok _ rest => (length rest < length bs)%nat
   | Err _ => True
-  | Panic s => s = P_ADD_U32 \/ s = P_CLIENT_ID
+  | Panic _ => False
   | Fuel => False
   end.
-Proof.
-  intros fuel bs Hl. apply (bnd_decode_idset ps_idset); [left|right| ]; auto.
-Qed.
+Proof. exact bnd_decode_idset. Qed.
 Print Assumptions decode_idset_total.
-
-Definition idset_add_u32_witness : list N := [1; 0; 1; 255; 255; 255; 255; 15; 1].
-Definition idset_client_id_witness : list N := [1; 128; 128; 128; 128; 128; 128; 128; 16; 0].
-
-Theorem decode_idset_refuted_add :
-  exists bs, decode_idset_v1 (S (length bs)) bs = Panic P_ADD_U32.
-Proof. exists idset_add_u32_witness. vm_compute. reflexivity. Qed.
-Print Assumptions decode_idset_refuted_add.
-
-Theorem decode_idset_refuted_client :
-  exists bs, decode_idset_v1 (S (length bs)) bs = Panic P_CLIENT_ID.
-Proof. exists idset_client_id_witness. vm_compute. reflexivity. Qed.
-Print Assumptions decode_idset_refuted_client.
 
 Theorem decode_sv_total : forall fuel bs, (length bs < fuel)%nat ->
   match decode_sv_v1 fuel bs with
   | Ok _ rest => (length rest < length bs)%nat
   | Err _ => True
-  | Panic s => s = P_CLIENT_ID
+  | Panic _ => False
   | Fuel => False
   end.
-Proof. intros fuel bs Hl. apply (bnd_decode_sv ps_sv); [reflexivity|exact Hl]. Qed.
+Proof. exact bnd_decode_sv. Qed.
 Print Assumptions decode_sv_total.
-
-Definition sv_client_id_witness : list N := [1; 128; 128; 128; 128; 128; 128; 128; 16; 0].
-
-Theorem decode_sv_refuted_client :
-  exists bs, decode_sv_v1 (S (length bs)) bs = Panic P_CLIENT_ID.
-Proof. exists sv_client_id_witness. vm_compute. reflexivity. Qed.
-Print Assumptions decode_sv_refuted_client.
 
 Theorem decode_snapshot_total : forall fuel bs, (length bs < fuel)%nat ->
   match decode_snapshot_v1 fuel bs with
   | Ok _ rest => (length rest < length bs)%nat
   | Err _ => True
-  | Panic s => s = P_ADD_U32 \/ s = P_CLIENT_ID
+  | Panic _ => False
   | Fuel => False
   end.
 Proof.
-  intros fuel bs Hl. change (bnd ps_idset (length bs) (decode_snapshot_v1 fuel bs)).
+  intros fuel bs Hl. change (bnd (length bs) (decode_snapshot_v1 fuel bs)).
   unfold decode_snapshot_v1.
-  eapply bnd_bind; [apply (bnd_decode_idset ps_idset); [left|right|]; auto|]. intros ds r1 H1.
-  eapply bnd_bind; [apply (bnd_decode_sv ps_idset); [right; reflexivity|lia]|]. intros s r2 H2.
+  eapply bnd_bind; [apply bnd_decode_idset; exact Hl|]. intros ds r1 H1.
+  eapply bnd_bind; [apply bnd_decode_sv; lia|]. intros s r2 H2.
   cbn [bnd]. lia.
 Qed.
 Print Assumptions decode_snapshot_total.
 
-Theorem decode_snapshot_refuted :
-  (exists bs, decode_snapshot_v1 (S (length bs)) bs = Panic P_ADD_U32) /\
-  (exists bs, decode_snapshot_v1 (S (length bs)) bs = Panic P_CLIENT_ID).
+(* the inputs that used to panic (u32 overflow of clock + len, client id 2^53) are now plain errors *)
+Definition idset_add_u32_witness : list N := [1; 0; 1; 255; 255; 255; 255; 15; 1].
+Definition idset_client_id_witness : list N := [1; 128; 128; 128; 128; 128; 128; 128; 16; 0].
+Definition sv_client_id_witness : list N := [1; 128; 128; 128; 128; 128; 128; 128; 16; 0].
+
+Example decode_idset_former_witnesses :
+  decode_idset_v1 (S (length idset_add_u32_witness)) idset_add_u32_witness = Err UnexpectedValue /\
+  decode_idset_v1 (S (length idset_client_id_witness)) idset_client_id_witness = Err UnexpectedValue /\
+  decode_sv_v1 (S (length sv_client_id_witness)) sv_client_id_witness = Err UnexpectedValue.
+Proof. repeat split; vm_compute; reflexivity. Qed.
+
+(* ------------------------------------------------------------------------------------------------ *)
+(* a decoded id set is canonical: it can be encoded again                                           *)
+(* ------------------------------------------------------------------------------------------------ *)
+
+Theorem decode_idrange_canon : forall fuel bs r rest,
+  decode_idrange_v1 fuel bs = Ok r rest -> canon r.
 Proof.
-  split; [exists idset_add_u32_witness|exists idset_client_id_witness]; vm_compute; reflexivity.
+  intros fuel bs r rest H. unfold decode_idrange_v1 in H.
+  apply bind_ok in H. destruct H as (len & r0 & _ & H).
+  apply bind_ok in H. destruct H as (raw & r1 & _ & H).
+  destruct (normalize_ranges_spec raw) as (r' & E & Hc & _). rewrite E in H. inversion H; subst. exact Hc.
 Qed.
-Print Assumptions decode_snapshot_refuted.
+Print Assumptions decode_idrange_canon.
+
+(* and it denotes the union of the ranges on the wire *)
+Lemma ranges_loop_ok : forall fuel n bs acc raw rest,
+  decode_ranges_loop fuel n bs acc = Ok raw rest ->
+  exists l, raw = rev acc ++ l /\ N.of_nat (length l) = n /\ Forall (fun x => e_end x < two32) l.
+Proof.
+  induction fuel as [|f IH]; intros n bs acc raw rest H; rewrite decode_ranges_loop_eq in H.
+  - destruct (N.eqb_spec n 0); [|discriminate]. inversion H; subst. exists []. rewrite app_nil_r. auto.
+  - destruct (N.eqb_spec n 0).
+    + inversion H; subst. exists []. rewrite app_nil_r. auto.
+    + apply bind_ok in H. destruct H as ([s e] & r1 & Hr & H). cbn [fst snd] in H.
+      apply IH in H. destruct H as (l & -> & Hn & Hl). exists ((s, e, tt) :: l).
+      cbn [rev length]. rewrite <- app_assoc. split; [reflexivity|]. split; [lia|].
+      constructor; [|exact Hl]. cbn [e_end fst snd].
+      unfold decode_range_v1 in Hr. apply bind_ok in Hr. destruct Hr as (clock & q1 & _ & Hr).
+      apply bind_ok in Hr. destruct Hr as (len & q2 & _ & Hr). unfold add32_checked in Hr.
+      destruct (N.ltb_spec (clock + len) two32); [|discriminate]. inversion Hr; subst. assumption.
+Qed.
+
+Definition idset_canon (s : idset) : Prop :=
+  ascb (map fst s) = true /\
+  Forall (fun cr => fst cr < two53 /\ canon (snd cr) /\ snd cr <> []) s.
+
+Lemma asc_above_im_set : forall (m : idset) lo c r,
+  asc_above lo (map fst m) = true -> lo < c -> asc_above lo (map fst (im_set m c r)) = true.
+Proof.
+  induction m as [|[c' r'] m IH]; intros lo c r H Hlo; cbn [im_set map fst asc_above] in *.
+  - rewrite andb_true_r. lia.
+  - apply andb_prop in H. destruct H as [H1 H2].
+    destruct (N.eqb_spec c' c) as [->|Hne]; cbn [map fst asc_above].
+    + rewrite H2, andb_true_r. lia.
+    + destruct (N.ltb_spec c c'); cbn [map fst asc_above].
+      * rewrite H2, andb_true_r. lia.
+      * rewrite IH by (try assumption; lia). rewrite andb_true_r. lia.
+Qed.
+
+Lemma ascb_im_set : forall (m : idset) c r, ascb (map fst m) = true -> ascb (map fst (im_set m c r)) = true.
+Proof.
+  intros [|[c' r'] m] c r H; [reflexivity|]. cbn [im_set].
+  cbn [map fst ascb] in H.
+  destruct (N.eqb_spec c' c) as [->|Hne]; cbn [map fst ascb]; [exact H|].
+  destruct (N.ltb_spec c c'); cbn [map fst ascb asc_above].
+  - rewrite H, andb_true_r. lia.
+  - apply asc_above_im_set; [exact H|lia].
+Qed.
+
+Lemma Forall_im_set : forall (P : N * idrange -> Prop) (m : idset) c r,
+  Forall P m -> P (c, r) -> Forall P (im_set m c r).
+Proof.
+  intros P. induction m as [|[c' r'] m IH]; intros c r Hm Hp; cbn [im_set]; [constructor; [exact Hp|constructor]|].
+  inversion Hm; subst. destruct (c' =? c); [constructor; assumption|].
+  destruct (c <? c'); [constructor; assumption|]. constructor; [assumption|]. apply IH; assumption.
+Qed.
+
+Lemma idset_loop_canon : forall fuel n bs acc s rest,
+  idset_canon acc -> decode_idset_loop fuel n bs acc = Ok s rest -> idset_canon s.
+Proof.
+  induction fuel as [|f IH]; intros n bs acc s rest Hacc H; rewrite decode_idset_loop_eq in H.
+  - destruct (n =? 0); [|discriminate]. inversion H; subst. exact Hacc.
+  - destruct (n =? 0); [inversion H; subst; exact Hacc|].
+    apply bind_ok in H. destruct H as (client & r1 & _ & H).
+    apply bind_ok in H. destruct H as (c & r1' & Hc & H). apply client_id_new_ok in Hc. destruct Hc as (-> & -> & Hc).
+    apply bind_ok in H. destruct H as (range & r3 & Hr & H). apply decode_idrange_canon in Hr.
+    eapply IH; [|exact H]. destruct range as [|x range]; [exact Hacc|].
+    destruct Hacc as [Ha Hf]. split; [apply ascb_im_set; exact Ha|].
+    apply Forall_im_set; [exact Hf|]. cbn [fst snd]. split; [exact Hc|]. split; [exact Hr|discriminate].
+Qed.
+
+Theorem decode_idset_canon : forall fuel bs s rest,
+  decode_idset_v1 fuel bs = Ok s rest ->
+  ascb (map fst s) = true /\
+  Forall (fun cr => fst cr < two53 /\ canon (snd cr) /\ snd cr <> []) s.
+Proof.
+  intros fuel bs s rest H. unfold decode_idset_v1 in H. apply bind_ok in H. destruct H as (n & r0 & _ & H).
+  eapply idset_loop_canon; [|exact H]. split; [reflexivity|constructor].
+Qed.
+Print Assumptions decode_idset_canon.
+
+(* ---- stronger: the decoded value satisfies wf_idrange / wf_idset, hence it round trips ---- *)
+
+Theorem decode_idrange_spec : forall fuel bs r rest,
+  decode_idrange_v1 fuel bs = Ok r rest ->
+  exists raw : idrange, Forall (fun x => e_end x < two32) raw /\ canon r /\ forall k, den r k = den raw k.
+Proof.
+  intros fuel bs r rest H. unfold decode_idrange_v1 in H.
+  apply bind_ok in H. destruct H as (len & r0 & _ & H).
+  apply bind_ok in H. destruct H as (raw & r1 & Hraw & H).
+  apply ranges_loop_ok in Hraw. destruct Hraw as (l & -> & _ & Hl). cbn [rev app] in *.
+  destruct (normalize_ranges_spec l) as (r' & E & Hc & Hd). rewrite E in H. inversion H; subst.
+  exists l. auto.
+Qed.
+
+Lemma canon_in_nonempty : forall l x, canon l -> In x l -> e_start x < e_end x.
+Proof.
+  induction l as [|y l IH]; intros x Hc Hin; [destruct Hin|]. cbn [canon] in Hc. destruct Hc as (H1 & _ & H3).
+  destruct Hin as [->|Hin]; [exact H1|apply IH; assumption].
+Qed.
+
+Lemma canon_length_le : forall l b M, canon l -> lbw b l -> Forall (fun x => e_end x <= M) l ->
+  l = [] \/ b + N.of_nat (length l) <= M.
+Proof.
+  induction l as [|x l IH]; intros b M Hc Hb Hf; [left; reflexivity|right].
+  cbn [canon] in Hc. destruct Hc as (H1 & H2 & H3). cbn [lbw] in Hb. inversion Hf as [|? ? Hx Hl]; subst.
+  destruct (IH (e_end x) M H3 (lb_ok_w _ _ H2) Hl) as [->|Hle]; cbn [length]; lia.
+Qed.
+
+Theorem decode_idrange_wf : forall fuel bs r rest,
+  decode_idrange_v1 fuel bs = Ok r rest -> wf_idrange r = true.
+Proof.
+  intros fuel bs r rest H. apply decode_idrange_spec in H. destruct H as (raw & Hraw & Hc & Hd).
+  assert (Hends : Forall (fun x => e_end x <= two32 - 1) r).
+  { apply Forall_forall. intros x Hx. pose proof (canon_in_nonempty r x Hc Hx) as Hne.
+    assert (Hk : den r (e_end x - 1) = true).
+    { apply den_true_in. exists x. split; [exact Hx|lia]. }
+    rewrite Hd in Hk. apply den_true_in in Hk. destruct Hk as (y & Hy & _ & Hlt).
+    rewrite Forall_forall in Hraw. specialize (Hraw y Hy). lia. }
+  unfold wf_idrange. apply andb_true_intro. split; [apply andb_true_intro; split|].
+  - assert (Hb : lbw 0 r) by (destruct r; cbn; [exact I|lia]).
+    destruct (canon_length_le r 0 (two32 - 1) Hc Hb Hends) as [->|Hle]; [reflexivity|]. unfold two32 in *. lia.
+  - apply forallb_forall. intros x Hx. rewrite Forall_forall in Hends. specialize (Hends x Hx).
+    pose proof (canon_in_nonempty r x Hc Hx). unfold wf_entry. unfold two32 in *. lia.
+  - apply ranges_canonical_iff. exact Hc.
+Qed.
+Print Assumptions decode_idrange_wf.
+
+Lemma length_im_set_le : forall (m : idset) c r, (length (im_set m c r) <= S (length m))%nat.
+Proof.
+  induction m as [|[c' r'] m IH]; intros c r; cbn [im_set length]; [lia|].
+  destruct (c' =? c); cbn [length]; [lia|]. destruct (c <? c'); cbn [length]; [lia|]. specialize (IH c r). lia.
+Qed.
+
+Lemma idset_loop_wf : forall fuel n bs (acc s : idset) rest,
+  Forall (fun cr => wf_idrange (snd cr) = true) acc ->
+  decode_idset_loop fuel n bs acc = Ok s rest ->
+  Forall (fun cr => wf_idrange (snd cr) = true) s /\ N.of_nat (length s) <= N.of_nat (length acc) + n.
+Proof.
+  induction fuel as [|f IH]; intros n bs acc s rest Hacc H; rewrite decode_idset_loop_eq in H.
+  - destruct (n =? 0); [|discriminate]. inversion H; subst. split; [exact Hacc|lia].
+  - destruct (n =? 0) eqn:En; [inversion H; subst; split; [exact Hacc|lia]|].
+    apply bind_ok in H. destruct H as (client & r1 & _ & H).
+    apply bind_ok in H. destruct H as (c & r1' & _ & H).
+    apply bind_ok in H. destruct H as (range & r3 & Hr & H). apply decode_idrange_wf in Hr.
+    apply IH in H.
+    + destruct H as [H1 H2]. split; [exact H1|].
+      destruct range; [lia|]. pose proof (length_im_set_le acc c (e :: range)). lia.
+    + destruct range; [exact Hacc|]. apply Forall_im_set; [exact Hacc|exact Hr].
+Qed.
+
+Theorem decode_idset_wf : forall fuel bs s rest,
+  decode_idset_v1 fuel bs = Ok s rest -> wf_idset s = true.
+Proof.
+  intros fuel bs s rest H. pose proof (decode_idset_canon _ _ _ _ H) as [Hasc Hcan].
+  unfold decode_idset_v1 in H. apply bind_ok in H. destruct H as (n & r0 & Hn & H).
+  apply read_var_u32_range in Hn. apply idset_loop_wf in H; [|constructor]. destruct H as [Hwf Hlen].
+  unfold wf_idset. rewrite Hasc, andb_true_r. apply andb_true_intro. split; [cbn [length] in Hlen; lia|].
+  apply forallb_forall. intros cr Hin. rewrite Forall_forall in Hwf, Hcan.
+  destruct (Hcan cr Hin) as (Hc & _ & Hne). rewrite (Hwf cr Hin), andb_true_r.
+  apply andb_true_intro. split; [lia|]. destruct (snd cr); [contradiction|reflexivity].
+Qed.
+Print Assumptions decode_idset_wf.
+
+(* whatever the decoder accepts can be encoded again and decodes to the same value *)
+Corollary decode_idset_reencode : forall fuel bs s rest rest',
+  decode_idset_v1 fuel bs = Ok s rest ->
+  decode_idset_v1 (idset_fuel s) (encode_idset_v1 s ++ rest') = Ok s rest'.
+Proof. intros fuel bs s rest rest' H. apply idset_roundtrip; [eapply decode_idset_wf; exact H|lia]. Qed.
+Print Assumptions decode_idset_reencode.
+
+(* what the strengthened predicates exclude does not round trip: the decoder normalises unsorted, touching
+   and empty ranges, and drops a client whose range list is empty *)
+Example idrange_normalised_example :
+  let r := [(3, 5, tt); (0, 3, tt); (7, 7, tt); (9, 12, tt); (10, 11, tt)] in
+  wf_idrange r = false /\
+  decode_idrange_v1 (S (length r)) (encode_idrange_v1 r) = Ok [(0, 5, tt); (9, 12, tt)] [].
+Proof. split; vm_compute; reflexivity. Qed.
+
+Example idset_empty_client_dropped_example :
+  let s := [(5, []); (9, [(1, 2, tt)])] in
+  wf_idset s = false /\ decode_idset_v1 (S (idset_fuel s)) (encode_idset_v1 s) = Ok [(9, [(1, 2, tt)])] [].
+Proof. split; vm_compute; reflexivity. Qed.
+
+(* ---- the same for state vectors and snapshots ---- *)
+
+Lemma existsb_sv_set : forall (acc : sv) c k x, x <> c ->
+  existsb (N.eqb x) (map fst (sv_set acc c k)) = existsb (N.eqb x) (map fst acc).
+Proof.
+  induction acc as [|[c' k'] acc IH]; intros c k x Hx; cbn [sv_set map fst existsb].
+  - replace (x =? c) with false by lia. reflexivity.
+  - destruct (N.eqb_spec c' c) as [->|Hne]; cbn [map fst existsb]; [reflexivity|].
+    rewrite IH by exact Hx. reflexivity.
+Qed.
+
+Lemma nodupb_sv_set : forall (acc : sv) c k,
+  nodupb (map fst acc) = true -> nodupb (map fst (sv_set acc c k)) = true.
+Proof.
+  induction acc as [|[c' k'] acc IH]; intros c k H; cbn [sv_set map fst nodupb] in *; [reflexivity|].
+  apply andb_prop in H. destruct H as [H1 H2].
+  destruct (N.eqb_spec c' c) as [->|Hne]; cbn [map fst nodupb].
+  - rewrite H1, H2. reflexivity.
+  - rewrite existsb_sv_set by exact Hne. rewrite H1, IH by exact H2. reflexivity.
+Qed.
+
+Lemma length_sv_set_le : forall (acc : sv) c k, (length (sv_set acc c k) <= S (length acc))%nat.
+Proof.
+  induction acc as [|[c' k'] acc IH]; intros c k; cbn [sv_set length]; [lia|].
+  destruct (c' =? c); cbn [length]; [lia|]. specialize (IH c k). lia.
+Qed.
+
+Lemma Forall_sv_set : forall (P : N * N -> Prop) (acc : sv) c k,
+  Forall P acc -> P (c, k) -> Forall P (sv_set acc c k).
+Proof.
+  intros P. induction acc as [|[c' k'] acc IH]; intros c k Ha Hp; cbn [sv_set]; [constructor; [exact Hp|constructor]|].
+  inversion Ha; subst. destruct (c' =? c); constructor; try assumption. apply IH; assumption.
+Qed.
+
+Lemma sv_loop_wf : forall fuel n bs (acc s : sv) rest,
+  nodupb (map fst acc) = true -> Forall (fun ck => fst ck < two53 /\ snd ck < two32) acc ->
+  decode_sv_loop fuel n bs acc = Ok s rest ->
+  nodupb (map fst s) = true /\ Forall (fun ck => fst ck < two53 /\ snd ck < two32) s /\
+  N.of_nat (length s) <= N.of_nat (length acc) + n.
+Proof.
+  induction fuel as [|f IH]; intros n bs acc s rest Hnd Hacc H; rewrite decode_sv_loop_eq in H.
+  - destruct (n =? 0); [|discriminate]. inversion H; subst. repeat split; try assumption. lia.
+  - destruct (n =? 0) eqn:En; [inversion H; subst; repeat split; try assumption; lia|].
+    apply bind_ok in H. destruct H as (client & r1 & _ & H).
+    apply bind_ok in H. destruct H as (c & r1' & Hc & H). apply client_id_new_ok in Hc. destruct Hc as (-> & -> & Hc).
+    apply bind_ok in H. destruct H as (clock & r3 & Hk & H). apply read_var_u32_range in Hk.
+    apply IH in H.
+    + destruct H as (H1 & H2 & H3). repeat split; try assumption.
+      pose proof (length_sv_set_le acc client clock). lia.
+    + apply nodupb_sv_set. exact Hnd.
+    + apply Forall_sv_set; [exact Hacc|]. cbn [fst snd]. split; assumption.
+Qed.
+
+Theorem decode_sv_wf : forall fuel bs s rest, decode_sv_v1 fuel bs = Ok s rest -> wf_sv s = true.
+Proof.
+  intros fuel bs s rest H. unfold decode_sv_v1 in H. apply bind_ok in H. destruct H as (n & r0 & Hn & H).
+  apply read_var_u32_range in Hn. apply sv_loop_wf in H; [|reflexivity|constructor].
+  destruct H as (H1 & H2 & H3). unfold wf_sv. rewrite H1, andb_true_r. apply andb_true_intro.
+  split; [cbn [length] in H3; lia|]. apply forallb_forall. intros ck Hin. rewrite Forall_forall in H2.
+  specialize (H2 ck Hin). lia.
+Qed.
+Print Assumptions decode_sv_wf.
+
+Theorem decode_snapshot_wf : forall fuel bs x rest,
+  decode_snapshot_v1 fuel bs = Ok x rest -> wf_snapshot x = true.
+Proof.
+  intros fuel bs x rest H. unfold decode_snapshot_v1 in H.
+  apply bind_ok in H. destruct H as (ds & r1 & Hd & H). apply bind_ok in H. destruct H as (s & r2 & Hs & H).
+  inversion H; subst. unfold wf_snapshot. cbn [fst snd].
+  rewrite (decode_idset_wf _ _ _ _ Hd), (decode_sv_wf _ _ _ _ Hs). reflexivity.
+Qed.
+Print Assumptions decode_snapshot_wf.
+
+Corollary decode_snapshot_reencode : forall fuel bs x rest rest',
+  decode_snapshot_v1 fuel bs = Ok x rest ->
+  decode_snapshot_v1 (snapshot_fuel x) (encode_snapshot_v1 x ++ rest') = Ok x rest'.
+Proof. intros fuel bs x rest rest' H. apply snapshot_roundtrip; [eapply decode_snapshot_wf; exact H|lia]. Qed.
 
 (* ------------------------------------------------------------------------------------------------ *)
 (* ids (shared by sticky indexes and updates)                                                       *)
 (* ------------------------------------------------------------------------------------------------ *)
 
 Definition wf_id (i : id) : bool := (cl i <? two53) && (ck i <? two32).
-Definition wf_str (s : list N) : bool := bytes_ok s && (N.of_nat (length s) <? two32).
+(* wf_str / wf_bin / str_roundtrip: Codec/VarintProofs.v (strings must be well-formed UTF-8) *)
 
 Lemma id_roundtrip : forall i rest, wf_id i = true -> read_id_v1 (write_id_v1 i ++ rest) = Ok i rest.
 Proof.
@@ -519,19 +863,16 @@ Proof.
 Qed.
 Print Assumptions id_roundtrip.
 
-Lemma str_roundtrip : forall s rest, wf_str s = true -> read_string (write_string s ++ rest) = Ok s rest.
-Proof. intros s rest H. unfold wf_str in H. apply andb_prop in H. apply string_roundtrip. lia. Qed.
-
 Theorem read_id_v1_shrinks : forall bs i rest, read_id_v1 bs = Ok i rest -> (length rest < length bs)%nat.
 Proof.
-  intros bs i rest H. pose proof (bnd_read_id ps_sv eq_refl bs) as Hb. rewrite H in Hb. exact Hb.
+  intros bs i rest H. pose proof (bnd_read_id bs) as Hb. rewrite H in Hb. exact Hb.
 Qed.
 Print Assumptions read_id_v1_shrinks.
 
 Theorem read_id_v1_total : forall bs,
-  match read_id_v1 bs with Panic s => s = P_CLIENT_ID | Fuel => False | _ => True end.
+  match read_id_v1 bs with Panic _ | Fuel => False | _ => True end.
 Proof.
-  intro bs. pose proof (bnd_read_id ps_sv eq_refl bs) as Hb. destruct (read_id_v1 bs); cbn in *; auto.
+  intro bs. pose proof (bnd_read_id bs) as Hb. destruct (read_id_v1 bs); cbn in *; auto.
 Qed.
 Print Assumptions read_id_v1_total.
 
@@ -746,57 +1087,55 @@ Proof.
 Qed.
 Print Assumptions read_buf_value_shrinks.
 
-Definition ps_sticky (s : N) : Prop := s = P_CLIENT_ID \/ s = P_SHL_I64 \/ s = P_NEG_I64.
-
 Theorem decode_sticky_total : forall bs,
   match decode_sticky bs with
   | Ok _ rest => (length rest < length bs)%nat
   | Err _ => True
-  | Panic s => s = P_CLIENT_ID \/ s = P_SHL_I64 \/ s = P_NEG_I64
+  | Panic _ => False
   | Fuel => False
   end.
 Proof.
-  intro bs. change (bnd ps_sticky (length bs) (decode_sticky bs)). unfold decode_sticky.
-  assert (Hc : ps_sticky P_CLIENT_ID) by (left; reflexivity).
-  eapply (bnd_bind _ _ _ (length bs)).
+  intro bs. change (bnd (length bs) (decode_sticky bs)). unfold decode_sticky.
+  eapply (bnd_bind _ _ (length bs)).
   - unfold decode_index_scope. eapply bnd_bind; [apply bnd_read_var_u8|]. intros tag r0 H0.
-    eapply (bnd_le _ _ (length r0)); [lia|].
-    destruct (tag =? 0); [apply bnd_rmap, bnd_read_id; exact Hc|].
+    eapply (bnd_le _ (length r0)); [lia|].
+    destruct (tag =? 0); [apply bnd_rmap, bnd_read_id|].
     destruct (tag =? 1); [apply bnd_rmap, bnd_read_string|].
-    destruct (tag =? 2); [apply bnd_rmap, bnd_read_id; exact Hc|exact I].
-  - intros s r1 H1. eapply (bnd_bind _ _ _ (length r1)).
+    destruct (tag =? 2); [apply bnd_rmap, bnd_read_id|exact I].
+  - intros s r1 H1. eapply (bnd_bind _ _ (length r1)).
     + unfold decode_assoc. eapply bnd_bind.
-      * apply (bnd_read_var_i64 ps_sticky); [right; left|right; right]; reflexivity.
+      * apply bnd_read_var_i64.
       * intros z rest Hz. destruct ((z <? -128)%Z || (127 <? z)%Z); cbn [bnd]; [exact I|exact Hz].
     + intros a r2 H2. cbn [bnd]. lia.
 Qed.
 Print Assumptions decode_sticky_total.
 
+(* the former panic inputs: client id 2^53 is an error; the signed reader wraps, and the Assoc conversion
+   to i8 accepts 0 / rejects i64::MIN *)
 Definition sticky_client_id_witness : list N := [0; 128; 128; 128; 128; 128; 128; 128; 16; 0].
 Definition sticky_shl_witness : list N := [1; 0] ++ shl_i64_witness.
 Definition sticky_neg_witness : list N := [1; 0] ++ neg_i64_witness.
 
-Theorem decode_sticky_refuted :
-  decode_sticky sticky_client_id_witness = Panic P_CLIENT_ID /\
-  decode_sticky sticky_shl_witness = Panic P_SHL_I64 /\
-  decode_sticky sticky_neg_witness = Panic P_NEG_I64.
+Example decode_sticky_former_witnesses :
+  decode_sticky sticky_client_id_witness = Err UnexpectedValue /\
+  decode_sticky sticky_shl_witness = Ok (SRoot [], true) [] /\
+  decode_sticky sticky_neg_witness = Err InvalidVarInt.
 Proof. repeat split; vm_compute; reflexivity. Qed.
-Print Assumptions decode_sticky_refuted.
 
 Lemma bnd_aw_loop : forall fuel n bs acc, (length bs < fuel)%nat ->
-  bnd ps_sv (S (length bs)) (decode_aw_loop fuel n bs acc).
+  bnd (S (length bs)) (decode_aw_loop fuel n bs acc).
 Proof.
   induction fuel as [|f IH]; intros n bs acc Hl; [lia|]. rewrite decode_aw_loop_eq.
   destruct (n =? 0); [cbn; lia|].
   eapply bnd_bind; [apply bnd_read_var_u64|]. intros c0 r1 H1.
-  eapply bnd_bind; [apply bnd_client_id_new; reflexivity|]. intros c r1' H1'.
+  eapply bnd_bind; [apply bnd_client_id_new|]. intros c r1' H1'.
   eapply bnd_bind; [apply bnd_read_var_u32|]. intros k r2 H2.
   eapply bnd_bind; [apply bnd_read_string|]. intros j r3 H3.
   eapply bnd_le; [|apply IH]; lia.
 Qed.
 
 Lemma bnd_decode_awareness : forall fuel bs, (length bs < fuel)%nat ->
-  bnd ps_sv (length bs) (decode_awareness fuel bs).
+  bnd (length bs) (decode_awareness fuel bs).
 Proof.
   intros fuel bs Hl. unfold decode_awareness, read_var_usize. eapply bnd_bind; [apply bnd_read_var_u64|].
   intros n rest Hr. eapply bnd_le; [|apply bnd_aw_loop]; lia.
@@ -806,28 +1145,21 @@ Theorem decode_awareness_total : forall fuel bs, (length bs < fuel)%nat ->
   match decode_awareness fuel bs with
   | Ok _ rest => (length rest < length bs)%nat
   | Err _ => True
-  | Panic s => s = P_CLIENT_ID
+  | Panic _ => False
   | Fuel => False
   end.
 Proof. exact bnd_decode_awareness. Qed.
 Print Assumptions decode_awareness_total.
 
-Definition awareness_client_id_witness : list N := [1; 128; 128; 128; 128; 128; 128; 128; 16].
-
-Theorem decode_awareness_refuted :
-  exists bs, decode_awareness (S (length bs)) bs = Panic P_CLIENT_ID.
-Proof. exists awareness_client_id_witness. vm_compute. reflexivity. Qed.
-Print Assumptions decode_awareness_refuted.
-
 Lemma bnd_decode_sync_msg : forall fuel bs, (length bs < fuel)%nat ->
-  bnd ps_sv (length bs) (decode_sync_msg fuel bs).
+  bnd (length bs) (decode_sync_msg fuel bs).
 Proof.
   intros fuel bs Hl. unfold decode_sync_msg. eapply bnd_bind; [apply bnd_read_var_u8|]. intros tag r0 H0.
-  eapply (bnd_le _ _ (length r0)); [lia|].
+  eapply (bnd_le _ (length r0)); [lia|].
   destruct (tag =? C_MSG_SYNC_STEP_1).
   - destruct (read_buf r0) as [b r1| | |] eqn:E; cbn [bind].
     + pose proof (read_buf_value_shrinks _ _ _ E) as Hb.
-      pose proof (bnd_decode_sv ps_sv eq_refl fuel b) as Hs.
+      pose proof (bnd_decode_sv fuel b) as Hs.
       destruct (decode_sv_v1 fuel b); cbn [bnd] in *; try (apply Hs; lia). lia.
     + exact I.
     + pose proof (read_buf_total r0) as Ht. rewrite E in Ht. destruct Ht.
@@ -840,17 +1172,17 @@ Theorem decode_sync_msg_total : forall fuel bs, (length bs < fuel)%nat ->
   match decode_sync_msg fuel bs with
   | Ok _ rest => (length rest < length bs)%nat
   | Err _ => True
-  | Panic s => s = P_CLIENT_ID
+  | Panic _ => False
   | Fuel => False
   end.
 Proof. exact bnd_decode_sync_msg. Qed.
 Print Assumptions decode_sync_msg_total.
 
 Lemma bnd_decode_message : forall fuel bs, (length bs < fuel)%nat ->
-  bnd ps_sv (length bs) (decode_message fuel bs).
+  bnd (length bs) (decode_message fuel bs).
 Proof.
   intros fuel bs Hl. unfold decode_message. eapply bnd_bind; [apply bnd_read_var_u8|]. intros tag r0 H0.
-  eapply (bnd_le _ _ (S (length r0))); [lia|].
+  eapply (bnd_le _ (S (length r0))); [lia|].
   destruct (tag =? C_MSG_SYNC).
   { apply bnd_rmap. eapply bnd_le; [|apply bnd_decode_sync_msg]; lia. }
   destruct (tag =? C_MSG_AWARENESS).
@@ -874,28 +1206,25 @@ Theorem decode_message_total : forall fuel bs, (length bs < fuel)%nat ->
   match decode_message fuel bs with
   | Ok _ rest => (length rest < length bs)%nat
   | Err _ => True
-  | Panic s => s = P_CLIENT_ID
+  | Panic _ => False
   | Fuel => False
   end.
 Proof. exact bnd_decode_message. Qed.
 Print Assumptions decode_message_total.
 
-(* SyncStep1 with a state vector whose client id is 2^53; an awareness message with such a client *)
+(* the former panic inputs (client id 2^53 inside a state vector / an awareness update) are errors now *)
+Definition awareness_client_id_witness : list N := [1; 128; 128; 128; 128; 128; 128; 128; 16].
 Definition sync_msg_client_id_witness : list N := [0; 10; 1; 128; 128; 128; 128; 128; 128; 128; 16; 0].
 Definition message_sync_client_id_witness : list N := 0 :: sync_msg_client_id_witness.
 Definition message_awareness_client_id_witness : list N := [1; 9; 1; 128; 128; 128; 128; 128; 128; 128; 16].
 
-Theorem decode_sync_msg_refuted :
-  exists bs, decode_sync_msg (S (length bs)) bs = Panic P_CLIENT_ID.
-Proof. exists sync_msg_client_id_witness. vm_compute. reflexivity. Qed.
-Print Assumptions decode_sync_msg_refuted.
-
-Theorem decode_message_refuted :
-  decode_message (S (length message_sync_client_id_witness)) message_sync_client_id_witness = Panic P_CLIENT_ID /\
+Example decode_message_former_witnesses :
+  decode_awareness (S (length awareness_client_id_witness)) awareness_client_id_witness = Err UnexpectedValue /\
+  decode_sync_msg (S (length sync_msg_client_id_witness)) sync_msg_client_id_witness = Err UnexpectedValue /\
+  decode_message (S (length message_sync_client_id_witness)) message_sync_client_id_witness = Err UnexpectedValue /\
   decode_message (S (length message_awareness_client_id_witness)) message_awareness_client_id_witness
-    = Panic P_CLIENT_ID.
-Proof. split; vm_compute; reflexivity. Qed.
-Print Assumptions decode_message_refuted.
+    = Err UnexpectedValue.
+Proof. repeat split; vm_compute; reflexivity. Qed.
 
 (* ------------------------------------------------------------------------------------------------ *)
 (* remarks                                                                                          *)
